@@ -12,6 +12,7 @@ import Vlsp.Spec.Ranges
 import Vlsp.Spec.RefEco
 import Vlsp.Model.Checker
 import Vlsp.Model.Claim
+import Vlsp.Model.Fetch
 
 /-! Line-protocol plumbing shared by the driver's op tables. -/
 namespace DriverLib
@@ -150,6 +151,46 @@ def pairs : List Text → List (Text × Text)
   | a :: b :: rest => (a, b) :: pairs rest
   | _ => []
 
+def natOfText (t : Text) : Nat := (String.ofList t).toNat!
+
+def takeN {α} : Nat → List α → List α × List α
+  | 0, l => ([], l)
+  | _, [] => ([], [])
+  | n + 1, a :: l => let (x, y) := takeN n l; (a :: x, y)
+
+def parseFaults (t : Text) : Fetch.Faults :=
+  { claim := List.elem 'c' t, replace := List.elem 'r' t, saveTags := List.elem 's' t, mark := List.elem 'm' t,
+    finish := List.elem 'f' t }
+
+/-- `<name> <kind> <nvs> v* <ntags> (t v)* <faults>` repeated -/
+def parseJobsAux : Nat → List Text → List Fetch.Job
+  | 0, _ => []
+  | n + 1, name :: kind :: nv :: rest =>
+    let (vs, rest) := takeN (natOfText nv) rest
+    match rest with
+    | nt :: rest =>
+      let (tv, rest) := takeN (2 * natOfText nt) rest
+      match rest with
+      | fl :: rest =>
+        let o : Fetch.Outcome :=
+          match String.ofList kind with
+          | "ok" => .ok vs (pairs tv)
+          | "nf" => .notFound
+          | "rl" => .rateLimited
+          | _ => .invalid
+        ⟨name, o, parseFaults fl⟩ :: parseJobsAux n rest
+      | [] => []
+    | [] => []
+  | _, _ => []
+
+def parseJobs (f : List Text) : List Fetch.Job :=
+  match f with
+  | n :: rest => parseJobsAux (natOfText n) rest
+  | [] => []
+
+def sortTexts (xs : List Text) : List Text :=
+  (xs.map String.ofList).mergeSort (fun a b => a ≤ b) |>.map String.toList
+
 /-- stateful cache ops; `none` when the op is not a cache op -/
 def cacheStep (st : DState) (op : String) (f : List Text) : Option (DState × String) :=
   match op, f with
@@ -182,6 +223,20 @@ def cacheStep (st : DState) (op : String) (f : List Text) : Option (DState × St
     let tagO : Option Text := match tag with | 'S' :: r => some r | _ => none
     let ansO : Option Text := match ans with | 'S' :: r => some r | _ => none
     some (st, tf (Spec.LatestSpec.acceptable (ip == ['T']) tagO rows ansO))
+  | "fetch.missing", reg :: gf :: jobs =>
+    let r := Fetch.fetchMissing st.db reg st.now (parseJobs jobs) (List.elem 'F' gf)
+    some ({ st with db := r.db }, s!"fetched={listStr r.fetched} requested={listStr r.requested}")
+  | "fetch.refresh", reg :: gf :: jobs =>
+    if List.elem 'n' gf then some (st, "refresh-query-failed requested=[]")
+    else
+      let js := parseJobs jobs
+      let due := (Cache.needingRefresh st.cfg st.db st.now).filter (·.reg == reg)
+      let todo : List Fetch.Job := due.map fun k =>
+        match js.find? (·.name == k.name) with
+        | some j => j
+        | none => ⟨k.name, .invalid, {}⟩
+      let r := Fetch.runJobs st.db reg st.now todo
+      some ({ st with db := r.db }, s!"done requested={listStr (sortTexts r.requested)}")
   | "q.reset", [] => some ({ st with claim := Claim.init {} 0 }, "ok")
   | "q.tick", [d] => some ({ st with claim := Claim.step st.claim (.tick (intOfText d).toNat) }, "ok")
   | "q.enter", [c, _, reg, name] =>
